@@ -21,6 +21,19 @@ int get_error_state (int mask) {
   return (error_state & mask);
 }
 
+/* The marks of the error that was last delivered to a driver-level handler: they are
+ * cleared on delivery, but safe_apply() - such a handler in the middle of a running
+ * evaluation - has to know whether it just absorbed a limit error. */
+static int delivered_error_state = 0;
+
+int get_delivered_error_state (int mask) {
+  return delivered_error_state & mask;
+}
+
+void note_delivered_error_state (void) {
+  delivered_error_state = error_state;
+}
+
 void clear_error_state () {
   error_state = 0;
 }
